@@ -267,8 +267,12 @@ def plan(pid, tier, Query):
             jobs = [(1, 'B', op, k, nm) for op in (1, 6) for k in (2, 4) for nm in ('cxx11', 'asserts')] + [(1, 'B', 0, 4, nm) for nm in ('cxx11', 'asserts', 'cxx14', 'cxx20', 'pedantic', 'O2')] + \
                    [(1, 'X', 0, 2, 'cxx11'), (1, 'X', 1, 4, 'cxx20'), (0, 'B', 3, 2, 'cxx11'), (0, 'B', 4, 3, 'cxx20'), (3, 'B', 0, 3, 'cxx11'), (3, 'B', 1, 3, 'asserts'), (2, 'B', 0, 2, 'cxx11')]
         else:
-            jobs = [(kd, 'B', op, k, nm) for kd in (0, 1, 2) for op in range(8) for k in (0, 2, 3, 4) for nm, _ in pairs] + \
-                   [(1, 'X', op, k, nm) for op in (0, 1, 3, 6) for k in (2, 4) for nm in ('cxx11', 'cxx20', 'asserts')] + [(3, 'B', op, k, nm) for op in range(4) for k in (1, 3) for nm, _ in pairs]
+            allp = [nm for nm, _ in pairs]
+            jobs = [(1, 'B', op, k, nm) for op in range(8) for k in (2, 4) for nm in allp if not (op == 0 and k < 4)] + \
+                   [(0, 'B', op, 3, nm) for op in range(8) for nm in ('cxx11', 'cxx20', 'asserts')] + \
+                   [(2, 'B', op, 2, nm) for op in range(8) for nm in ('cxx11', 'asserts')] + \
+                   [(1, 'X', op, k, 'cxx11') for op in (0, 1, 3, 6) for k in (2, 4)] + \
+                   [(3, 'B', op, k, nm) for op in range(4) for k in (1, 3) for nm in ('cxx11', 'cxx20', 'asserts', 'O2')]
         alts = dict(pairs)
         for kind, e, op, k, nm in jobs:
             alt = alts[nm]
